@@ -89,8 +89,7 @@ def run_driver(ctx, lines, describe, label):
         f = dict(kv.split("=", 1) for kv in l.split()[1:] if "=" in kv)
         i = int(f["line"]) - 1
         suffix, obj = describe(i)
-        slicing = f.get("slicing", "").rstrip("0123456789")
-        key = "replay:%s:%s:%s" % (suffix, f["what"], slicing)
+        key = "replay:%s:%s" % (suffix, f["what"])
         if key in seen:
             continue
         seen.add(key)
@@ -99,6 +98,7 @@ def run_driver(ctx, lines, describe, label):
     info["_mismatch_lines"] = sorted(set(int(dict(kv.split("=", 1) for kv in l.split()[1:] if "=" in kv)["line"])
                                          for l in out.splitlines() if l.startswith("MISMATCH")))
     info["_files"] = [dict(kv.split("=", 1) for kv in l.split()[1:]) for l in out.splitlines() if l.startswith("FILE ")]
+    info["drift"] = sum(1 for l in out.splitlines() if l.startswith("DRIFT"))
     ctx.log("driver (%s): %s" % (label, done[0]))
     return info
 
@@ -266,6 +266,9 @@ def run(ctx):
     for i in (info1, info2):
         if i:
             i.pop("_mismatch_lines", None); i.pop("_files", None)
+    if info2 and info2.get("drift"):
+        ctx.notes.append("%d call plans: the real coder consumed/produced different amounts per call than SimpleCoder.tla predicts "
+                         "while the bytes were right (allowed by the property; the model of simple_code() has drifted)" % info2["drift"])
     ctx.extra["driver"] = dict(transforms=info1, plans=info2)
     ctx.extra["released_library"] = sysinfo
     ctx.extra["conversion_rate"] = {a: [round(changed_fraction(recs, a, True), 2), round(changed_fraction(recs, a, False), 2)] for a in ARCHS}
